@@ -278,6 +278,17 @@ def lossless_variants(pop):
         if types.get(c) is float and (v4[c] == v4[c].round()).all():
             v4[c] = v4[c].astype(int)
     out = [("int columns given as whole-number floats", v1), ("bool columns given as 0/1 ints", v2), ("bool columns given as 0.0/1.0 floats", v3), ("whole-number float columns given as ints", v4)]
+    # integer columns (identifiers included) stored in a narrow integer dtype that holds every value
+    v5 = pop.copy()
+    for c in pop.columns:
+        if types.get(c) is int and pop[c].abs().max() < 100:
+            v5[c] = v5[c].astype("int8")
+    out.append(("small-valued int columns (ids included) given as int8", v5))
+    v6 = pop.copy()
+    for c in pop.columns:
+        if types.get(c) is int and pop[c].abs().max() < 30000:
+            v6[c] = v6[c].astype("int16")
+    out.append(("int columns given as int16", v6))
     # one converted column at a time: every single conversion is announced, too
     for c, ty in (("alter", float), ("kind", int), ("bruttolohn_m", int)):
         if c in pop.columns and (ty is not int or (pop[c] == pop[c].round()).all()):
